@@ -369,3 +369,80 @@ Example round_trip_demo :
   result_in d1 (CSet [97] (JNum [49])) 1 = CROk /\ result_in d2 (CGet [97]) 2 = CRVal (JNum [49]) /\ result_in d3 (CCGet [98]) 3 = CRNone /\
   next_tid c3 = 4.
 Proof. vm_compute. repeat split; reflexivity. Qed.
+
+(* ---- subscriptions: from the core's channel to the application's stream ---- *)
+From WB Require Import Proofs.SubsFacts Proofs.C03Proof Proofs.StreamProof.
+
+Definition state_msg (tid : N) (e : event) : option smsg :=
+  match e with EValue v => Some (SState tid (SValue v)) | EDeleted v => Some (SState tid (SDeleted v)) | _ => None end.
+
+Definition to_sub (sn tid : N) (x : N * smsg) : bool :=
+  N.eqb (fst x) sn && match snd x with SState t _ => N.eqb t tid | _ => false end.
+
+Definition chan_events (w : world) (o : output) : list (N * smsg) :=
+  flat_map (fun ie =>
+              match lookup_n (fst ie) (w_chan w) with
+              | Some (sn, tid, k) =>
+                  if sess_open w sn then
+                    match snd ie, k with
+                    | EValue v, _ => [(sn, SState tid (SValue v))]
+                    | EDeleted v, _ => [(sn, SState tid (SDeleted v))]
+                    | EPValue kvs, KPState p => [(sn, SPState tid p (PKvs kvs))]
+                    | EPDeleted kvs, KPState p => [(sn, SPState tid p (PDel kvs))]
+                    | _, _ => []
+                    end
+                  else []
+              | None => []
+              end) (o_events o).
+
+Lemma filter_flat_map {A B} (f : B -> bool) (g : A -> list B) l : filter f (flat_map g l) = flat_map (fun a => filter f (g a)) l.
+Proof. induction l as [|a l IH]; [reflexivity|]. cbn [flat_map]. now rewrite filter_app, IH. Qed.
+
+Lemma filter_none {A} (f : A -> bool) l : (forall x, In x l -> f x = false) -> filter f l = [].
+Proof.
+  induction l as [|a l IH]; intros H; [reflexivity|]. cbn [filter]. rewrite (H a (or_introl eq_refl)). apply IH. intros x Hx. apply H. now right.
+Qed.
+
+(* the State messages that reach session sn under the subscription's id are the events of the subscription's channel,
+   one message per event, in order -- provided no other channel is filed under the same session and id (F24) *)
+Theorem channel_to_wire w o sn tid inst :
+  lookup_n inst (w_chan w) = Some (sn, tid, KState) -> sess_open w sn = true ->
+  (forall inst' k', lookup_n inst' (w_chan w) = Some (sn, tid, k') -> inst' = inst) ->
+  filter (to_sub sn tid) (route_events w o) =
+  flat_map (fun e => match state_msg tid e with Some m => [(sn, m)] | None => [] end) (chan inst (o_events o)).
+Proof.
+  intros Hl Hop Huniq. unfold route_events. rewrite !filter_app.
+  (* the three other kinds of traffic carry no State message *)
+  rewrite (filter_none (to_sub sn tid) (flat_map _ (o_ls o))), (filter_none (to_sub sn tid) (flat_map _ (o_granted o))), (filter_none (to_sub sn tid) (flat_map _ (o_cancelled o))).
+  2:{ intros x Hx. apply in_flat_map in Hx as (r & _ & Hx). destruct (lookup_n r (w_reqs w)) as [[sn' t']|]; [|destruct Hx].
+      destruct (sess_open w sn'); [|destruct Hx]. destruct Hx as [<-|[]]. unfold to_sub. cbn. now rewrite Bool.andb_false_r. }
+  2:{ intros x Hx. apply in_flat_map in Hx as (r & _ & Hx). destruct (lookup_n r (w_reqs w)) as [[sn' t']|]; [|destruct Hx].
+      destruct (sess_open w sn'); [|destruct Hx]. destruct Hx as [<-|[]]. unfold to_sub. cbn. now rewrite Bool.andb_false_r. }
+  2:{ intros x Hx. apply in_flat_map in Hx as (il & _ & Hx). destruct (lookup_n (fst il) (w_chan w)) as [[[sn' t'] k']|]; [|destruct Hx].
+      destruct (sess_open w sn'); [|destruct Hx]. destruct Hx as [<-|[]]. unfold to_sub. cbn. now rewrite Bool.andb_false_r. }
+  rewrite !app_nil_r. unfold chan. rewrite filter_flat_map.
+  induction (o_events o) as [|[i e] evs IH]; [reflexivity|]. cbn [flat_map filter fst snd]. rewrite IH. clear IH.
+  destruct (N.eqb_spec i inst) as [->|Hne]; cbn [map snd flat_map].
+  - f_equal. rewrite Hl, Hop.
+    destruct e; cbn [state_msg filter]; unfold to_sub; cbn [fst snd]; rewrite ?N.eqb_refl; reflexivity.
+  - replace (filter (to_sub sn tid) _) with (@nil (N * smsg)); [reflexivity|]. symmetry. apply filter_none. intros x Hx.
+    destruct (lookup_n i (w_chan w)) as [[[sn' t'] k']|] eqn:El; [|destruct Hx]. destruct (sess_open w sn'); [|destruct Hx].
+    assert (Hd : (N.eqb sn' sn && N.eqb t' tid)%bool = false).
+    { destruct (N.eqb_spec sn' sn) as [->|]; [|reflexivity]. destruct (N.eqb_spec t' tid) as [->|]; [|reflexivity].
+      elim Hne. exact (Huniq i k' El). }
+    unfold to_sub. destruct e, k'; try destruct Hx as [<-|[]]; try destruct Hx; cbn [fst snd]; try exact Hd; now rewrite Bool.andb_false_r.
+Qed.
+
+(* ... and on the client: a State message under the id of a live subscription, with no one-shot call pending under that
+   id, is handed to the subscription's stream and to nothing else, and the bookkeeping stays as it was *)
+Lemma cb_remove_absent t m : cb_find t m = None -> cb_remove t m = m.
+Proof.
+  induction m as [|[t0 c0] m IH]; [reflexivity|]. cbn [cb_find cb_remove]. destruct (N.eqb t t0); [discriminate|]. intros H. now rewrite IH.
+Qed.
+
+Theorem wire_to_stream c tid call x :
+  cb_find tid (sub c) = Some call -> cb_find tid (state c) = None ->
+  on_msg c (SState tid x) = (c, [DEvent call (SState tid x)]).
+Proof.
+  intros Hs Hst. cbn [on_msg]. rewrite Hs, Hst, (cb_remove_absent tid (state c) Hst). cbn [opt_list app]. now destruct c.
+Qed.
